@@ -389,6 +389,29 @@ class ChildWorld:
             ev["state"] = system.state.value.tobytes()
             ev["state_units"] = str(system.state.units)
             ev["before"] = before.value.tobytes()
+        elif name == "setup_batch":
+            # ["setup_batch", [seed, ...]]: set the script up once per seed and record the state right after each set-up
+            script = self.get_script(sidx).copy()
+            self.global_size = script.system.state_size()
+            xs = []
+            status = 0
+            loops = 0
+            for sd in op[1]:
+                script.rng_seed = int(sd)
+                eng.setup(script)
+                st_ = int(self.lib.engineexport_verif_status())
+                status |= st_
+                loops = max(loops, int(self.lib.engineexport_verif_loopcount()))
+                ob = self.observe()
+                xs.append(ob["x"])
+                if ob["t"] != 0.0:
+                    ev["t_nonzero"] = ob["t"]
+                eng.finalize()
+            ev["xs"] = b"".join(xs)
+            ev["status"] = status
+            ev["loops"] = loops
+            eus = eng._units_system
+            ev["eus"] = {"space": eus["space"], "time": eus["time"], "quantity": eus["quantity"]}
         elif name == "gc":
             gc.collect()
         elif name == "poison":
